@@ -537,6 +537,11 @@ impl<Backing : AsRef<[u32]> + AsMut<[u32]>> DrawTarget<Backing> {
             return;
         }
 
+        // every path starts without a current point: a path that does not begin
+        // with MoveTo must not continue from wherever the previous path ended
+        self.current_point = None;
+        self.first_point = None;
+
         for op in &path.ops {
             match *op {
                 PathOp::MoveTo(pt) => {
